@@ -22,6 +22,7 @@ import ColoVerif.Proofs.TranspSsp2Nonneg
 import ColoVerif.Proofs.TranspSsp2Solve
 import ColoVerif.Proofs.TranspSsp2Witness
 import ColoVerif.Proofs.TranspFloatGap
+import ColoVerif.Proofs.TranspFloatC07
 
 namespace ColoVerif.C13
 open ColoVerif.Transp
@@ -284,6 +285,55 @@ theorem ssp_optimal_float (caps dems : List Int) (fc : List (List Rat)) (hf : fl
 example : floatCostsOk [[0, 1 / 3], [1 / 2, 1 / 4]] = true ∧
     (Problem.makeFloat [2, 2] [1, 2] [[0, 1 / 3], [1 / 2, 1 / 4]]).check = true := by decide +kernel
 
+/-- **The call sequence of `DensityLegalizer::reoptimize`** (`TransportationProblem solver(capacities, demands,
+costs /* float */); solver.increaseCapacity(); solver.solve();`): for every cost matrix of the domain on which
+the constructor's `check()` passes and there is a sink, `increaseCapacity()` makes the capacity cover the
+demand, leaves the scaled costs alone, and `solve()` then returns a feasible plan of minimum cost w.r.t. them
+— no further hypothesis. -/
+theorem ssp_optimal_float_inc (caps dems : List Int) (fc : List (List Rat)) (hf : floatCostsOk fc = true)
+    (hc : (Problem.makeFloat caps dems fc).check = true) (hn : 0 < caps.length) :
+    (Problem.makeFloat caps dems fc).increaseCapacity.costs = costsFromFloats fc ∧
+    ∃ q, solve (Problem.makeFloat caps dems fc).increaseCapacity = .ok q ∧
+      Feasible (Problem.makeFloat caps dems fc).increaseCapacity q.allocations ∧
+      ∀ y, Feasible (Problem.makeFloat caps dems fc).increaseCapacity y →
+        costOf (Problem.makeFloat caps dems fc).increaseCapacity q.allocations
+          ≤ costOf (Problem.makeFloat caps dems fc).increaseCapacity y := by
+  have hn' : 0 < (Problem.makeFloat caps dems fc).nbSinks := hn
+  obtain ⟨hcov, hmono, hns, hdems, hcosts, hallocs, _⟩ := increaseCapacity_covers (Problem.makeFloat caps dems fc) hn'
+  obtain ⟨hcap, _⟩ := check_facts _ hc
+  have hsrc : (Problem.makeFloat caps dems fc).increaseCapacity.nbSources = (Problem.makeFloat caps dems fc).nbSources := by
+    unfold Problem.nbSources; rw [hdems]
+  have hchk : (Problem.makeFloat caps dems fc).increaseCapacity.check = true := by
+    have h := hc
+    unfold Problem.check at h ⊢
+    simp only [Bool.and_eq_true] at h ⊢
+    obtain ⟨⟨⟨⟨⟨h1, _⟩, h3⟩, h4⟩, h5⟩, h6⟩ := h
+    rw [hdems, hcosts, hallocs, hns, hsrc]
+    refine ⟨⟨⟨⟨⟨h1, ?_⟩, h3⟩, h4⟩, h5⟩, h6⟩
+    rw [List.all_eq_true]
+    intro x hx
+    obtain ⟨i, hi, e⟩ := List.getElem_of_mem hx
+    have hi' : i < (Problem.makeFloat caps dems fc).nbSinks := by
+      have : (Problem.makeFloat caps dems fc).increaseCapacity.nbSinks
+          = (Problem.makeFloat caps dems fc).increaseCapacity.capacities.length := rfl
+      omega
+    have h1 := hcap i hi'
+    have h2 := hmono i
+    have e' : (Problem.makeFloat caps dems fc).increaseCapacity.capacity i = x := by
+      unfold Problem.capacity
+      rw [List.getD_eq_getElem?_getD, List.getElem?_eq_getElem hi, e]; rfl
+    simp only [decide_eq_true_eq]
+    omega
+  have hcb : costBoundOk (Problem.makeFloat caps dems fc).increaseCapacity = true := by
+    rw [costBoundOk_iff]
+    intro i j hi hj
+    have hb := (costBoundOk_iff _).mp (costsFromFloats_bound caps dems fc hf).1 i j (by rw [← hns]; exact hi)
+      (by rw [← hsrc]; exact hj)
+    unfold Problem.cost at hb ⊢
+    rw [hcosts]; exact hb
+  obtain ⟨q, hq, _, _, _, hfe, _, hopt⟩ := ssp_optimal _ ⟨hchk, hcov, hcb⟩
+  exact ⟨hcosts, q, hq, hfe, hopt⟩
+
 /-- **Optimality in the scaled costs vs. the original real-valued costs.**  The plan returned by `solve()`
 is optimal for the stored integers `round(c·factor)`, not for the `c` themselves; each stored cost is within
 `δ = 1/2 + 2^-24` of `c·factor` (`1/2` from `std::round`, `2^-24` from the binary64 product of a value below
@@ -315,6 +365,19 @@ theorem float_optimality_gap (caps dems : List Int) (fc : List (List Rat)) (hf :
   · exact float_gap caps dems fc hF hn1 _ y hfe hy (hopt y hy)
   · exact float_gap_ideal caps dems fc hF hn1 hD _ y hfe hy (hopt y hy)
 
+/-- **Exact optimality in the real-valued costs does not hold** (so `float_optimality_gap` is the right shape of
+statement): 3 sinks × 1 source with costs `3, 2, 2^40`.  `maxVal = 2^40` makes the factor `≈ 2^-11.6`, the costs
+`3` and `2` are both stored as `0`, and `solve()` (evaluated by the kernel) puts the source into sink 0 at real
+cost `3` although sink 1 costs `2`.  The difference `1` is within the gap bound `2·D·δ/factor ≈ 3073`. -/
+theorem float_exact_optimality_fails :
+    ∃ (fc : List (List Rat)) (q : Problem) (y : Mat), floatCostsOk fc = true ∧
+      (Problem.makeFloat [1, 1, 1] [1] fc).check = true ∧ solve (Problem.makeFloat [1, 1, 1] [1] fc) = .ok q ∧
+      primalOk (Problem.makeFloat [1, 1, 1] [1] fc) y = true ∧
+      realCostOf fc 3 1 y < realCostOf fc 3 1 q.allocations :=
+  ⟨[[3], [2], [1099511627776]],
+   { Problem.makeFloat [1, 1, 1] [1] [[3], [2], [1099511627776]] with allocations := [[1], [0], [0]] },
+   [[0], [1], [0]], by decide +kernel⟩
+
 /-- **The lower bound on the costs cannot be dropped.**  `maxVal` ignores negative costs, so a finite
 negative cost of large magnitude is scaled beyond the solver's bound: for the 1 × 2 matrix `[[1, −2]]`
 (`maxVal = 1`, factor `INT_MAX/4`) the stored cost of `−2` is `−1073741824`, `3·|cost| > INT_MAX`.
@@ -323,5 +386,12 @@ theorem float_precondition_needed :
     ∃ fc : List (List Rat), (∀ r, r ∈ fc → ∀ c, c ∈ r → -fcFltMax ≤ c ∧ c ≤ fcFltMax) ∧
       floatCostsOk fc = false ∧ costBoundOk (Problem.makeFloat [2] [1, 1] fc) = false :=
   ⟨[[1, -2]], by decide +kernel, by decide +kernel, by decide +kernel⟩
+
+/-- **One scaling for C07 and C13.**  C07's fault-checked model of the same function (`costsFromIntegersC`,
+which reports an out-of-range `double → int` conversion as a fault and is tied to the C++ by `drv_C07`) returns
+exactly `costsFromFloats` whenever it reports no fault. -/
+theorem float_model_agrees_with_checked_model (fc : List (List Rat)) (m : Mat)
+    (h : costsFromIntegersC fc = .ok m) : m = costsFromFloats fc :=
+  costsFromIntegersC_eq fc m h
 
 end ColoVerif.C13
